@@ -714,6 +714,11 @@ func main() {
 		pool := []int{r.Intn(len(palette)), r.Intn(len(palette)), r.Intn(len(palette))} // few colours: they repeat and collide
 		widths := []float64{1, 1, 2, 0.5, rng.Pick(r, []float64{0.25, 3, 1.5})}
 		var views []string
+		var sharedDashes []float64
+		if r.P(1, 5) {
+			sharedDashes = append(make([]float64, 0, 8), 2, 1)
+			ctx.SetCoordSystem(canvas.CartesianI)
+		}
 		for k := 0; k < nd; k++ {
 			kind := r.Intn(4) // 0 fill, 1 stroke, 2 both, 3 both
 			fill, stroke := canvas.Transparent, canvas.Transparent
@@ -751,6 +756,18 @@ func main() {
 			}
 			m, vn := genView(r)
 			views = append(views, vn)
+			if sharedDashes != nil {
+				// styles handed to Canvas.RenderPath directly, all with ONE dash slice (spare capacity) and their own offsets: a
+				// back-end must neither write into the caller's slice nor keep it
+				st := ctx.Style
+				st.Dashes = sharedDashes
+				st.DashOffset = rng.Pick(r, []float64{0, 0.5, 1.5, 2.25})
+				if !st.HasStroke() {
+					st.Dashes = nil
+				}
+				c.RenderPath(genPath(r), st, m)
+				continue
+			}
 			ctx.SetView(m)
 			ctx.DrawPath(0, 0, genPath(r))
 		}
